@@ -689,14 +689,15 @@ def tasks(tier, seed):
     for sg in sigmas:
         out[f"K/sigma{sg}"] = Task(_lemma_K(sg), extra_patch=kpatch, on_exception=_no_exception)
         for s in range(3):
-            for combo in ALL_COMBOS if (tier == "thorough" or sg == 1) else HALF_COMBOS:
+            # sigma 3 (19x19 kernel) is the expensive member of the thorough tier: half of the padding combinations
+            for combo in ALL_COMBOS if ((tier == "thorough" and sg < 3) or sg == 1) else HALF_COMBOS:
                 out[f"P/sigma{sg}/s{s}/{_combo_label(combo)}"] = Task(_lemma_P(sg, s, combo), extra_patch=kpatch, max_paths=64, on_exception=_no_exception)
         for which in ("linear", "const", "range_lo", "range_hi", "mirror0", "mirror1"):
             out[f"C/sigma{sg}/{which}"] = Task(_lemma_C(sg, which), extra_patch=kpatch, on_exception=_no_exception)
     # end to end
     for sg in sigmas:
         for s in range(3):
-            for combo in ALL_COMBOS if tier == "thorough" else HALF_COMBOS if sg == 1 else [ALL_COMBOS[0], ALL_COMBOS[-1], ALL_COMBOS[5]]:
+            for combo in ALL_COMBOS if (tier == "thorough" and sg < 3) else HALF_COMBOS if sg == 1 else [ALL_COMBOS[0], ALL_COMBOS[-1], ALL_COMBOS[5]]:
                 out[f"E/sym/sigma{sg}/s{s}/{_combo_label(combo)}"] = Task(_end_to_end_symbolic(sg, s, combo), extra_patch=kpatch, max_paths=64, on_exception=_no_exception)
     small = []
     dims = [(2, 3), (4, 2)] if tier == "quick" else [(2, 2), (2, 3), (3, 2), (3, 3), (4, 3), (2, 5), (7, 2), (5, 6)]
